@@ -493,6 +493,58 @@ func compareAt(t tensor.Tensor, want Arr, eq func(a, b interface{}) bool) string
 }
 
 // readAll reads all logical elements through At (nil entries on failure).
+// derivedProbe observes t through operations that trust its flags (contiguity, transposed bit, data
+// order) rather than its strides: the whole-tensor view, a leading-axis cut and a clone, each read
+// back element by element and through Materialize. t itself is not changed.
+func derivedProbe(t *tensor.Dense, m Arr) string {
+	if len(m.Shape) == 0 || len(m.E) == 0 {
+		return ""
+	}
+	type probe struct {
+		name string
+		sl   []tensor.Slice
+		lo   int
+	}
+	probes := []probe{{"Slice()", nil, 0}, {"Slice([0:n])", []tensor.Slice{RS{0, m.Shape[0], 1}}, 0}}
+	if m.Shape[0] >= 3 {
+		probes = append(probes, probe{"Slice([1:n])", []tensor.Slice{RS{1, m.Shape[0], 1}}, 1})
+	}
+	for _, pr := range probes {
+		var v tensor.View
+		var err error
+		if pan := try(func() { v, err = t.Slice(pr.sl...) }); pan != "" {
+			return pr.name + " panicked: " + pan
+		}
+		if err != nil {
+			return pr.name + " refused: " + err.Error()
+		}
+		inner := prod(m.Shape[1:])
+		want := Arr{DT: m.DT, Shape: append([]int{m.Shape[0] - pr.lo}, m.Shape[1:]...), E: m.E[pr.lo*inner:]}
+		// an axis cut to length one by an explicit range may be dropped
+		if got := []int(v.Shape()); prod(got) == len(want.E) && len(got) < len(want.Shape) {
+			want.Shape = cloneInts(got)
+		}
+		if msg := compareAt(v, want, bitEqVal); msg != "" {
+			return pr.name + ": " + msg
+		}
+		var mat tensor.Tensor
+		if pan := try(func() { mat = v.Materialize() }); pan != "" {
+			return pr.name + ".Materialize() panicked: " + pan
+		}
+		if msg := compareAt(mat, want, bitEqVal); msg != "" {
+			return pr.name + ".Materialize(): " + msg
+		}
+	}
+	var cl tensor.Tensor
+	if pan := try(func() { cl = t.Clone().(*tensor.Dense) }); pan != "" {
+		return "Clone() panicked: " + pan
+	}
+	if msg := compareAt(cl, m, bitEqVal); msg != "" {
+		return "Clone(): " + msg
+	}
+	return ""
+}
+
 func readAll(t tensor.Tensor) []interface{} {
 	if t.Shape().IsScalar() {
 		return []interface{}{t.ScalarValue()}
